@@ -129,8 +129,24 @@ def run_spec(spec, knobs, choices=None, poll=True, drain_virtual=40.0,
                     for nid, attrs in attrs2.items():
                         node = ctx.nodes.get(nid)
                         if node is not None:
-                            node.jobs_window = attrs['window']
-                            node.timeout = attrs['timeout']
+                            # (an attribute that keeps its value is left
+                            # alone: what the first run did to it stays)
+                            if attrs['window'] != node.spec['window']:
+                                node.jobs_window = attrs['window']
+                            if attrs['timeout'] != node.spec['timeout']:
+                                node.timeout = attrs['timeout']
+                            for mid in attrs.get('drop') or ():
+                                member = ctx.nodes.get(mid)
+                                if member is not None and \
+                                        ctx.parent_of.get(mid) == nid:
+                                    node.remove(member)
+                            for jspec in attrs.get('new') or ():
+                                from .workload import SimJob
+                                ctx.parent_of[jspec['id']] = nid
+                                node.add(SimJob(
+                                    ctx, jspec, forever=jspec['forever'],
+                                    critical=jspec['critical']
+                                    != bool(jspec.get('crit_method'))))
                     run.t_begin = loop._now
                     loop.horizon = loop._now + S.horizon(spec)
                 if knobs["entry"] == "run":
